@@ -888,3 +888,13 @@ package meta
 //@   loop 1 invariant scalars_stay: ui.Name == str(pb.Name) && ui.Hash == str(pb.Hash) && ui.Admin == pbool(pb.Admin) && ui.Privileges != nil
 //@   ensures restores_name_hash_and_admin_flag: ui.Name == str(pb.Name) && ui.Hash == str(pb.Hash) && ui.Admin == pbool(pb.Admin) && ui.Privileges != nil
 //@   modifies UserInfo.all
+
+// ---- C18: the destination of a shard copy is advertised as an owner only after the copy succeeded ----
+// (the "failure-atomic advertisement chain": coordinator.Client.CopyShard surfaces every error - proved in
+// coordinator - and the meta leader adds the owner only when that call returned nil)
+//@ func (*handler).serveCopyShard
+//@   props C18
+//@   nosafety
+//@   ghost copied bool = false
+//@   at after CopyShard#1: ghost copied = callresult0 == nil
+//@   call copyShard#1 requires advertised_only_after_a_successful_copy: copied
